@@ -391,8 +391,12 @@ def gen_mdp_run(rng, tier):
                 tot = sum(F(w) for _, w in items)
                 j = rng.randrange(len(items))
                 return [[x, (str(tot) if i == j else "0")] for i, (x, _) in enumerate(items)]
+            memo = {}      # rows that are equal in the first MDP share ONE distribution object: they get the same update
             for k in sorted(m2["trans"]):
-                m2["trans"][k] = concentrate(m2["trans"][k])
+                key = tuple(map(tuple, m["trans"][k]))
+                if key not in memo:
+                    memo[key] = concentrate(m2["trans"][k])
+                m2["trans"][k] = [list(x) for x in memo[key]]
             m2["init"] = concentrate(m2["init"])
             for k in list(m2["reward"]):
                 s_, a_, ns_ = map(int, k.split(","))
